@@ -355,7 +355,7 @@ func aeEnumerate(s *Shard, prop string, fn func(c *Case)) {
 		levels := g.levels
 		cids := critIDs(g.m)
 		specs := append(incLists(cids), genSpecs(true)...)
-		typeSets := [][]string{{"gain", "gain"}, {"gain", "cost"}}
+		typeSets := [][]string{{"", "gain"}, {"gain", "cost"}}
 		ws := [][]float64{{2, 1}, {1, 2}, {1, 1}}
 		if g.m == 3 {
 			typeSets = [][]string{{"gain", "gain", "gain"}, {"cost", "gain", "cost"}}
